@@ -44,11 +44,13 @@ pub fn gen_cases(cfg: &RunCfg) -> Vec<Case> {
     let n = cfg.budget(120, 1500);
     let mut cases = Vec::new();
     for set in 0..n {
-        let n_mod = 1 + rng.below(4);
+        // every eighth set: few assignments, *all* of them replaced (nothing is left to generate)
+        let all_faulty = set % 8 == 7;
+        let n_mod = if all_faulty { 1 + rng.below(2) } else { 1 + rng.below(4) };
         let mut mods = Vec::new();
         for m in 0..n_mod {
-            let n_assign = if set % 3 == 0 { 1 + rng.below(4) } else { 1 + rng.below(40) };
-            let mut g = Gen { rng: &mut rng, info_objects: true };
+            let n_assign = if all_faulty { 1 + rng.below(3) } else if set % 3 == 0 { 1 + rng.below(4) } else { 1 + rng.below(40) };
+            let mut g = Gen { rng: &mut rng, info_objects: !all_faulty };
             mods.push(g.module(&format!("Mod{set}x{m}"), &format!("{set}x{m}"), n_assign));
         }
         // assignments of the same name in different modules
@@ -77,6 +79,12 @@ pub fn gen_cases(cfg: &RunCfg) -> Vec<Case> {
             .enumerate()
             .flat_map(|(mi, m)| m.defs.iter().enumerate().filter(|(_, d)| matches!(d.kind, Kind::Type | Kind::Value) && d.shape != "Up" && d.shape != "UpObj").map(move |(di, _)| (mi, di)))
             .collect();
+        if all_faulty {
+            let same = rng.chance(1, 2).then(|| [2usize, 4, 0, 1, 3][rng.below(5)]);
+            let faults = eligible.iter().map(|(mi, di)| (*mi, *di, same.unwrap_or_else(|| rng.below(5)))).collect();
+            cases.push(Case { base: mods, faults });
+            continue;
+        }
         let n_faults = (1 + rng.below(3)).min(eligible.len());
         let mut faults = Vec::new();
         let mut taken = BTreeSet::new();
@@ -265,7 +273,7 @@ fn err_carries_nothing(cfg: &RunCfg, rep: &mut Report) {
 pub fn run(cfg: &RunCfg) -> Report {
     let mut rep = Report::new(
         "C10",
-        "module sets (1..4 modules, 1..40 assignments each: 16 type shapes, aliases / wrappers / lists of earlier types, builtin and referenced-type values, classes + objects, parameterized templates + instances; differing tagging / extensibility defaults; in a third of the sets one assignment is repeated under the same name in another module) compiled without faults and with 1..3 assignments replaced by REAL / VideotexString / inverted range / unsupported value form / MACRO. Oracle: every assignment is represented under its mangled name in its own module, or named in a warning (REAL / VideotexString warnings carry no name: matched by count), or of a no-output category; items of definitions that do not depend on a replaced one are byte-identical with and without the faults; Err writes nothing. Model tie: the sequence of emitted definitions equals the pipeline skeleton's",
+        "module sets (1..4 modules, 1..40 assignments each: 16 type shapes, aliases / wrappers / lists of earlier types, builtin and referenced-type values, classes + objects, parameterized templates + instances; differing tagging / extensibility defaults; in a third of the sets one assignment is repeated under the same name in another module) compiled without faults and with 1..3 assignments (in every eighth, small, set: all assignments) replaced by REAL / VideotexString / inverted range / unsupported value form / MACRO. Oracle: every assignment is represented under its mangled name in its own module, or named in a warning (REAL / VideotexString warnings carry no name: matched by count), or of a no-output category; items of definitions that do not depend on a replaced one are byte-identical with and without the faults; Err writes nothing. Model tie: the sequence of emitted definitions equals the pipeline skeleton's",
     );
     let cases: Vec<Case> = if let Some(r) = &cfg.replay {
         let r = r.get("case").unwrap_or(r);
